@@ -20,6 +20,8 @@ import (
 	crand "crypto/rand"
 	"encoding/binary"
 	"fmt"
+	"os"
+	"path/filepath"
 	"strings"
 	"sync/atomic"
 
@@ -188,6 +190,10 @@ func main() {
 	if !haveSeam {
 		driverMain()
 		return
+	}
+	// the driver built this binary for this run only
+	if exe, err := os.Executable(); err == nil && strings.HasPrefix(filepath.Base(exe), "c19.inner.") {
+		_ = os.Remove(exe)
 	}
 	core.Main("C19", run, replay)
 }
